@@ -27,11 +27,17 @@ local function frame_args_index(new_args, key)
         local frame = new_args._frame
         if type(v) == "userdata" then
             -- Python tuple in luaexec.call_lua_sandbox.make_frame()
-            local is_named = v[1]
+            local is_named, keep_left, keep_right = v[1], v[2], v[3]
             v = frame:preprocess(v[0])
             -- https://en.wikipedia.org/wiki/Help:Template#Whitespace_handling
+            -- (an end that <nowiki> content stands at is not trimmed)
             if is_named then
-                v = v:match "^%s*(.-)%s*$"
+                if not keep_left then
+                    v = v:match "^%s*(.-)$"
+                end
+                if not keep_right then
+                    v = v:match "^(.-)%s*$"
+                end
             end
         else
             v = frame:preprocess(v)
